@@ -4,7 +4,7 @@
    source (with checkFileName), [decode] (json.Unmarshal into sourceFile) is arbitrary.
    Limits: no symbolic or hard links, permissions, PATH_MAX or other processes. *)
 From Coq Require Import ZArith.
-From Trzsz Require Import Base.Bytes Gen.Consts Model.Path Model.Fs Model.Names Proofs.PathFs Proofs.Names.
+From Trzsz Require Import Base.Bytes Gen.Consts Model.Path Model.Fs Model.Names Model.NamesRecv Proofs.PathFs Proofs.Names Proofs.NamesRecv.
 
 (* Overwrite off.  For every prior file system in which every entry has its parent
    directory, every destination that is a directory, every decoder and every sequence of
@@ -57,10 +57,10 @@ Definition C07_consistent_names_full : Prop := forall decode cfg dest fs0,
 
 (* Proved: the direction "every new top-level name was returned for some message", and of
    the converse the freshness half (a returned name with any effect did not exist before).
-   Missing: "a returned name is present afterwards" — it needs a presence-monotonicity
-   invariant for every file-system primitive which is not in Proofs/Names.v; the
-   correspondence run compares the reported names with the new top-level entries of the
-   real tree on every all-accepted case instead.
+   Missing at THIS level (a flat message sequence): "a returned name is present afterwards".
+   At the level where names are actually reported - the loop of recvFiles - both directions
+   are proved: C07_reported_roots / C07_reported_present below (the presence-monotonicity
+   invariant they need is in Proofs/NamesRecv.v).
    In the real code the name chosen for an ARCHIVE ENTRY is not reported (archive.go drops
    it): an entry whose path id differs from the archive's own lands under another fresh
    name that the user is not told about (see the final report). *)
@@ -75,6 +75,65 @@ Theorem C07_consistent_names_partial : forall decode cfg dest fs0,
      lookup fs0 (dest ++ [n]) = None).
 Proof. intros decode cfg dest fs0 Ho Hd msgs del. split; [apply consistent_names | apply returned_fresh]; assumption. Qed.
 Print Assumptions C07_consistent_names_partial.
+
+(* ---- the names REPORTED as saved: the loop of recvFiles (Model/NamesRecv.v) ----
+   [nr_run] is recvFiles on a list of records - one per announced entry: the NAME message and
+   what arrives through the writer it returned (file bytes, or the entry headers of an archive
+   record's data stream); a directory record has no writer.  Result [Some names] = the list
+   recvFiles returns, which trz / the client print as "Saved ..."; [None] = the transfer failed
+   and nothing is reported.
+
+   Overwrite off.  For every prior file system, destination that is a directory, decoder and
+   list of records of arbitrary bytes in which every archive entry header carries the path id
+   of its archive record ([nr_own]: what the real sender produces): if recvFiles succeeds, the
+   reported list has no duplicates, its members are EXACTLY the top-level names of the
+   destination that did not exist before and exist now - whether the root was announced by a
+   file, an empty directory, a directory-only tree, a record below the root, an archive, once or
+   repeatedly - and its order is the order in which those roots were first created, opened or
+   written ([nr_roots]: the roots of the effect log, first occurrences, in log order). *)
+Theorem C07_reported_roots : forall decode cfg dest fs0,
+  overwrite cfg = false -> stat fs0 dest = SFound Dir ->
+  forall rs names st', nr_own decode cfg rs = true ->
+  nr_run decode cfg dest rs fs0 = (Some names, st') ->
+  NoDup names /\
+  (forall n, In n names <-> lookup fs0 (dest ++ [n]) = None /\ lookup (st_fs st') (dest ++ [n]) <> None) /\
+  names = nr_roots dest (st_log st') [].
+Proof. exact reported_roots. Qed.
+Print Assumptions C07_reported_roots.
+
+(* Any overwrite setting, any records: a reported name exists in the destination afterwards,
+   and no name is reported twice. *)
+Theorem C07_reported_present : forall decode cfg dest fs0 rs names st',
+  stat fs0 dest = SFound Dir -> nr_run decode cfg dest rs fs0 = (Some names, st') ->
+  NoDup names /\ forall n, In n names -> lookup (st_fs st') (dest ++ [n]) <> None.
+Proof. exact reported_present. Qed.
+Print Assumptions C07_reported_present.
+
+(* Without the condition on the entries' path ids the equality is FALSE for the code as it is
+   (KNOWN_FINDINGS archive-entry-foreign-top-level): NAME {id 0, ["a"], directory, archive}
+   followed by the entry header {id 7, ["o","x"]} creates /d/o, reports only "a". *)
+Theorem C07_reported_roots_foreign_refuted :
+  exists decode cfg dest fs0 rs names st', overwrite cfg = false /\ stat fs0 dest = SFound Dir /\
+    nr_run decode cfg dest rs fs0 = (Some names, st') /\
+    exists n, ~ In n names /\ lookup fs0 (dest ++ [n]) = None /\ lookup (st_fs st') (dest ++ [n]) <> None.
+Proof. exact reported_roots_foreign_refuted. Qed.
+Print Assumptions C07_reported_roots_foreign_refuted.
+
+(* non-vacuity: /d holds a directory "c"; an empty directory "c" (-> c.0), a directory-only tree
+   "s/a", and a file "x" arrive; all three are reported, in this order *)
+Example C07_reported_nonvacuous :
+  let f0 : fs := [([[100]], Dir); ([[100]; [99]], Dir)] in
+  let cfg := {| overwrite := false; directory := true; v3 := false |} in
+  let dec (raw : list N) := match raw with
+    | [1] => Some {| s_id := 0; s_rel := [[99]]; s_isdir := true; s_archive := false |}
+    | [2] => Some {| s_id := 1; s_rel := [[115]]; s_isdir := true; s_archive := false |}
+    | [3] => Some {| s_id := 1; s_rel := [[115]; [97]]; s_isdir := true; s_archive := false |}
+    | [4] => Some {| s_id := 2; s_rel := [[120]]; s_isdir := false; s_archive := false |}
+    | _ => None end in
+  let rs := map (fun raw => {| nr_raw := raw; nr_payload := [7]; nr_entries := [] |}) [[1]; [2]; [3]; [4]] in
+  nr_own dec cfg rs = true /\ stat f0 [[100]] = SFound Dir /\
+  fst (nr_run dec cfg [[100]] rs f0) = Some [[99; 46; 48]; [115]; [120]].
+Proof. vm_compute. repeat split. Qed.
 
 (* name, name.0 ... name.999 all present (or unreadable): getNewName fails, createFile
    refuses, and the state is exactly what it was *)
